@@ -83,10 +83,10 @@ RoundTrip == /\ IsEvent("roundtrip")
 Reset2 == /\ IsEvent("reset2")
           /\ g2' = [pos |-> Rec[l].pos, ns |-> Rec[l].ns, names |-> Rec[l].names]
           /\ UNCHANGED <<vars, meta, acc>>
-Listing(i) == IF i = 0 THEN <<1>>
-              ELSE SelectSeq([k \in 1..Len(g2.pos[i]) |-> k], LAMBDA k : g2.pos[i][k])
+Listing2(i) == IF i = 0 THEN <<1>>
+               ELSE SelectSeq([k \in 1..Len(g2.pos[i]) |-> k], LAMBDA k : g2.pos[i][k])
 ConsumedOK(r) ==
-  LET ls == Listing(r.i)
+  LET ls == Listing2(r.i)
   IN /\ r.i \in 0..Len(g2.pos)
      /\ (r.via = "count" => r.n = Len(ls))
      /\ (r.via = "fold" => r.js = ls)
